@@ -91,6 +91,13 @@ func c20fixture(c *Ctx, rng *rand.Rand) (*model.Batch, *model.Seg, []byte, bool)
 	if err := s.Close(); err != nil {
 		c.R.Fail("mem-close", "in-memory Close: %v", err)
 	}
+	// "harmless": dictionaries, postings, stored fields and doc values of an
+	// in-memory segment are still there after Close (only its caches go)
+	guard(c.R, "in-memory after Close", func() {
+		oracle.CheckPostings(c.R, "in-memory after Close", s, m, oracle.PostOpts{MaxTerms: 4})
+		oracle.CheckStored(c.R, "in-memory after Close", s, m, 1)
+		oracle.CheckDocValues(c.R, []oracle.DVTarget{{Tag: "in-memory after Close", Seg: s, M: m}}, rng, 1024, nil)
+	})
 	c.R.Inc("in_memory_close_checked", 1)
 	return b, m, readFile(p), true
 }
